@@ -46,7 +46,8 @@ func (ups *Socket) Connect(manager cert.TlsConfig, mustSecure bool) error {
 		a.Scheme = addr.PlusEnd.ReplaceAllString(a.Scheme, "")
 		log.Debugf("Dialing TLS %s", a.String())
 
-		c, err = tls.Dial(n.Network(), n.String(), tlsConfig)
+		// The timeout covers the connect and the TLS handshake: a peer that accepts and stays silent must not hang us.
+		c, err = tls.DialWithDialer(&net.Dialer{Timeout: socketace.HandshakeTimeout}, n.Network(), n.String(), tlsConfig)
 	} else {
 		a.Scheme = addr.PlusEnd.ReplaceAllString(a.Scheme, "")
 		log.Debugf("Dialing plain %s", a.String())
